@@ -16,6 +16,10 @@ statements
   falling off the end of a mutating       the method returns None: `ret=UNIT`, the result is `((), final value of every assigned
   method                                  attribute)`
   `("return", None)` as a fragment step   the value of the function's last top-level `return`
+  `x = self.copy()`                       `x.attr` reads the declared attribute `attr` of self as of that statement (deep copy;
+                                          a later skipped assignment to `x.attr` / `self.attr` makes it opaque as usual)
+  `expose=[(callee, arg, name)]`          fragment selection inside a call STATEMENT: `callee(…)` (unique) is preceded by
+                                          `name = <positional arg number | keyword arg>` so that `("assign", name)` can select it
 
 expressions
   `np.delete(arr, idx, axis=0)`,          idx a list of python ints: `Py6.npDeleteI?` (numpy reads −k as n−k, removes a repeated
@@ -26,12 +30,18 @@ expressions
                                           an argument that is a list of python ints where the callee is typed with naturals
                                           goes through `Py6.natList?` (`none` when an entry is negative: the callee's
                                           translation has no meaning there; the equivalence theorems show it does not happen)
+  `range(n)`                              `List.range n`
+  `np.array(np.meshgrid(a, b, c)).T.reshape(-1, 3)`   for three 1-D sequences of parametric length (also `*[f(r) for r in t]` over a
+                                          3-tuple): `Py6.meshgridT3 a b c` — the rows (x, y, z) in numpy's order: z slowest, then x,
+                                          then y (sequences of literal length are expanded by the base class instead)
+  `X[np.any(X != 0, axis=1)]`             on an (n, 3) array of naturals: `Py6.rowsAnyNonzero3 X` (the rows with a non-zero entry)
   `Atoms(k1=e1, …)` (`ctor`)              the constructor call as DATA: (the sorted list of ALL keyword names passed, then for
                                           every keyword declared in `ctor["kwargs"]` `some value` / `none` = not passed);
                                           positional arguments are Unsupported
 ----------------------------------------------------------------------------------------------------------------
 """
 import ast
+import copy
 import os
 
 from . import core, gen_code
@@ -55,6 +65,37 @@ def all_functions():
 
 
 class Fn6(Fn):
+    def _find(self):
+        fn = super()._find()
+        if self.cfg.get("expose"):
+            fn = copy.deepcopy(fn)
+            for callee, which, name in self.cfg["expose"]:
+                hits = []
+                for parent in ast.walk(fn):
+                    for field in ("body", "orelse"):
+                        body = getattr(parent, field, None)
+                        if isinstance(body, list):
+                            for i, st in enumerate(body):
+                                if isinstance(st, ast.Expr) and isinstance(st.value, ast.Call) and ast.unparse(st.value.func) == callee:
+                                    hits.append((body, i, st))
+                if len(hits) != 1:
+                    raise Unsupported("%s: %s: %d call statements of %s" % (self.path, self.cfg["py"], len(hits), callee))
+                body, i, st = hits[0]
+                call = st.value
+                if isinstance(which, int):
+                    if which >= len(call.args) or any(isinstance(a_, ast.Starred) for a_ in call.args):
+                        raise Unsupported("%s: %s: %s has no positional argument %d" % (self.path, self.cfg["py"], callee, which))
+                    val = call.args[which]
+                else:
+                    kws = [k.value for k in call.keywords if k.arg == which]
+                    if len(kws) != 1:
+                        raise Unsupported("%s: %s: %s is not called with %s=" % (self.path, self.cfg["py"], callee, which))
+                    val = kws[0]
+                new = ast.copy_location(ast.Assign(targets=[ast.Name(id=name, ctx=ast.Store())], value=val), st)
+                ast.fix_missing_locations(new)
+                body.insert(i, new)
+        return fn
+
     # -------------------------------------------------------------- statements
     def mutated_attrs(self):
         """as the base class, but also attributes assigned through an unpacking `self.a, x = e`"""
@@ -78,6 +119,19 @@ class Fn6(Fn):
     def stmt(self, s, rest, env, conts, mode):
         if isinstance(s, ast.Expr) and ast.unparse(s.value) in self.cfg.get("skip_stmts", ()):
             return self.block(rest, env, conts, mode)
+        if isinstance(s, ast.Assign) and len(s.targets) == 1 and isinstance(s.targets[0], ast.Name) and "self" in env and \
+                ast.unparse(s.value) == "self.copy()" and s.targets[0].id not in self.cfg.get("attrs", {}):
+            # x = self.copy(): a deep copy; x.attr is self.attr as of now
+            x = s.targets[0].id
+            e2 = dict(env)
+            for key in list(e2):
+                if key.startswith(x + "."):
+                    del e2[key]
+            e2[x] = V(x, OPAQUE)
+            for attr in self.cfg.get("attrs", {}):
+                if "self." + attr in env:
+                    e2[x + "." + attr] = env["self." + attr]
+            return self.block(rest, e2, conts, mode)
         if isinstance(s, ast.Assign) and len(s.targets) == 1 and isinstance(s.targets[0], ast.Tuple) and self.cfg.get("mutates") and \
                 any(isinstance(e, ast.Attribute) for e in s.targets[0].elts):
             # self.a, x = e   ==>   u = e; self.a = u[0]; x = u[1]
@@ -104,10 +158,71 @@ class Fn6(Fn):
         return super().fragment_body(stmts, steps, env)
 
     # -------------------------------------------------------------- expressions
+    def ex_Attribute(self, node, env, want):
+        if isinstance(node.value, ast.Name) and node.value.id != "self" and (node.value.id + "." + node.attr) in env and \
+                node.value.id in env and env[node.value.id].ty == OPAQUE and node.value.id not in self.cfg.get("objattrs", {}):
+            return env[node.value.id + "." + node.attr]         # an attribute of a copy of self
+        return super().ex_Attribute(node, env, want)
+
+    def ex_Subscript(self, node, env, want):
+        # X[np.any(X != 0, axis=1)]: the rows of an (n, 3) array with a non-zero entry
+        sl = node.slice
+        if isinstance(node.value, ast.Name) and isinstance(sl, ast.Call) and ast.unparse(sl.func) == "np.any" and "np" not in env and \
+                len(sl.args) == 1 and [k.arg for k in sl.keywords] == ["axis"] and isinstance(sl.keywords[0].value, ast.Constant) and \
+                sl.keywords[0].value.value == 1 and ast.unparse(sl.args[0]) == "%s != 0" % node.value.id:
+            x = self.ex(node.value, env)
+            if x.ty == OPAQUE:
+                return x
+            if x.ty == LIST(TUP(NAT, NAT, NAT)) and x.items is None:
+                return V("(Py6.rowsAnyNonzero3 %s)" % x.term, x.ty, x.binds, x.refs)
+            self.fail(node, "row mask on %s" % (x.ty,))
+        return super().ex_Subscript(node, env, want)
+
+    def meshgrid_args(self, call, env):
+        """the arguments of np.meshgrid(...), a starred static list expanded"""
+        out = []
+        for a_ in call.args:
+            if isinstance(a_, ast.Starred):
+                v = self.ex(a_.value, env)
+                if v.ty == OPAQUE:
+                    return None
+                if v.items is None:
+                    self.fail(call, "starred argument of unknown length")
+                out += [V(x.term, x.ty, v.binds if i == 0 else (), x.refs, x.items, x.lit, np=x.np) for i, x in enumerate(v.items)]
+            else:
+                v = self.ex(a_, env)
+                if v.ty == OPAQUE:
+                    return None
+                out.append(v)
+        return out
+
     def ex_Call(self, node, env, want):
         f = node.func
         kw = {k.arg: k.value for k in node.keywords}
         fname = ast.unparse(f)
+        # range(n)
+        if fname == "range" and "range" not in env and len(node.args) == 1 and not kw:
+            n = self.ex(node.args[0], env)
+            if n.ty == OPAQUE:
+                return n
+            n = self.coerce(node, n, NAT)
+            return V("(List.range %s)" % n.term, LIST(NAT), n.binds, n.refs)
+        # np.array(np.meshgrid(a, b, c)).T.reshape(-1, 3) for sequences of parametric length
+        if isinstance(f, ast.Attribute) and f.attr == "reshape" and not kw and [ast.unparse(a_) for a_ in node.args] == ["-1", "3"] and \
+                isinstance(f.value, ast.Attribute) and f.value.attr == "T" and isinstance(f.value.value, ast.Call) and \
+                ast.unparse(f.value.value.func) == "np.array" and "np" not in env and len(f.value.value.args) == 1 and \
+                not f.value.value.keywords and isinstance(f.value.value.args[0], ast.Call) and \
+                ast.unparse(f.value.value.args[0].func) == "np.meshgrid" and not f.value.value.args[0].keywords:
+            saved = self.ntmp
+            args = self.meshgrid_args(f.value.value.args[0], env)
+            if args is None:
+                return V.opaque()
+            if len(args) == 3 and all(a_.items is None and isinstance(a_.ty, tuple) and a_.ty[0] == "list" for a_ in args) and \
+                    len({a_.ty for a_ in args}) == 1:
+                binds, refs = _join(*args)
+                ety = args[0].ty[1]
+                return V("(Py6.meshgridT3 %s)" % " ".join(a_.term for a_ in args), LIST(TUP(ety, ety, ety)), binds, refs)
+            self.ntmp = saved                 # sequences of literal length: the base class expands them
         # np.delete(arr, idx, axis=0) / np.take(arr, idx, axis=0) with a list of python ints
         if fname in ("np.delete", "np.take") and "np" not in env and len(node.args) == 2 and set(kw) == {"axis"} and \
                 isinstance(kw["axis"], ast.Constant) and kw["axis"].value == 0:
@@ -211,6 +326,26 @@ FUNCTIONS6 = [
              "atom_type_elements, atom_type_labels, cell; `none` = IndexError of np.take)"),
 ]
 
+_N3 = TUP(NAT, NAT, NAT)
+_EXPOSE = [("transatoms.translate", 0, "translate_arg"), ("repl_atoms.extend", "offsets", "extend_offsets")]
+
+FUNCTIONS6 += [
+    # ---- item 3: Atoms.replicate (its cell is `replicateCell` of Generated/Code.lean)
+    dict(file="mofun/atoms.py", cls="Atoms", py="replicate", lean="replicateMults", slice=True,
+         fragment=[("stmt", "np.any(ucmults != 0, axis=1) then ucmults")], params=[("repldims", _N3)], attrs={"cell": MAT3}, ret=LIST(_N3),
+         doc=" (FRAGMENT: the image multipliers in the order of the loop, "
+             "`np.array(np.meshgrid(*[range(r) for r in repldims])).T.reshape(-1, 3)` with the rows `[0, 0, 0]` removed)"),
+    dict(file="mofun/atoms.py", cls="Atoms", py="replicate", lean="replicateShift", slice=True, expose=_EXPOSE,
+         fragment=[("for", "ucmults"), ("assign", "translate_arg")], params=[("repldims", _N3)], loopvars={"ucmult": _N3},
+         attrs={"cell": MAT3}, ret=VEC3,
+         doc=" (FRAGMENT: the vector handed to `transatoms.translate` for one multiplier row `ucmult`, "
+             "`np.matmul(transatoms.cell.T, ucmult)` with `transatoms = self.copy()`)"),
+    dict(file="mofun/atoms.py", cls="Atoms", py="replicate", lean="replicateOffsets", slice=True, expose=_EXPOSE,
+         fragment=[("for", "ucmults"), ("assign", "extend_offsets")], params=[("repldims", _N3)], loopvars={"ucmult": _N3},
+         attrs={"cell": MAT3}, ret=TUP(NAT, NAT, NAT, NAT, NAT),
+         doc=" (FRAGMENT: the `offsets=` keyword of the `repl_atoms.extend` call of every image)"),
+]
+
 PRELUDE6 = r'''/- GENERATED on every run by harness/gen_code6.py from the sources of /repo — do not edit.
    Python → Lean translation, batch 6 (container operations, bond detection, term enumeration); the supported subset is
    documented in gen_code.py and gen_code6.py.  `Mofun.Generated.Py6` is the fixed prelude of the primitives this batch adds;
@@ -245,6 +380,16 @@ def npTakeI? {α} (arr : List α) (idx : List Int) : Option (List α) :=
     for which that translation has no meaning -/
 def natList? (xs : List Int) : Option (List Nat) :=
   Py.listMapM? xs (fun i => if 0 ≤ i then some i.toNat else none)
+
+/-- `np.array(np.meshgrid(xs, ys, zs)).T.reshape(-1, 3)` for three 1-D sequences: the rows `(x, y, z)` in the order numpy
+    produces them — `meshgrid` (default `indexing='xy'`) gives three arrays of shape (len ys, len xs, len zs), `.T` reverses
+    all axes of the stacked (3, ·, ·, ·) array, `reshape(-1, 3)` reads it row-major: z varies slowest, then x, then y -/
+def meshgridT3 {α} (xs ys zs : List α) : List (α × α × α) :=
+  zs.flatMap (fun k => xs.flatMap (fun i => ys.map (fun j => (i, j, k))))
+
+/-- `rows[np.any(rows != 0, axis=1)]` on an (n, 3) array of naturals: the rows with a non-zero entry, in order -/
+def rowsAnyNonzero3 (rows : List (Nat × Nat × Nat)) : List (Nat × Nat × Nat) :=
+  rows.filter (fun m => m.1 != 0 || m.2.1 != 0 || m.2.2 != 0)
 
 end Mofun.Generated.Py6
 
